@@ -240,10 +240,12 @@ theorem splitGcodeScript_spec (t : Option Text) :
     have h' : ({} : Parser).parseLines (some s) = .ok (qs, fin) := h
     refine ⟨_, by simp only [splitGcodeScript, h', bind, Except.bind]; rfl, ?_⟩
     intro ls hls l hl
-    cases hls
-    have := (List.mem_filter.mp hl).2
-    intro he
-    rw [he] at this
-    simp at this
+    split at hls
+    · cases hls
+    · cases hls
+      have := (List.mem_filter.mp hl).2
+      intro he
+      rw [he] at this
+      simp at this
 
 end ERP.C18
